@@ -23,6 +23,7 @@ def jobs(tier):
 
 PROP = dict(
     jobs=jobs,
+    schedule_dependent_signatures=("c14:digest-mismatch", "tsan:data-race"),
     rule="case = 2..12 thread workloads, each = object kind (encoder; decoder fed by its own encoder; multistream encoder/decoder pair with "
          "explicit layout or surround family 0/1/255; repacketizer with packet helpers; projection encoder/decoder order 1-2) + generated "
          "configuration + up to 15 operations (create via *_create or *_init in caller memory, ctl changes incl. forced mode changes, "
